@@ -165,6 +165,7 @@ def register(PROPS):
         "assumptions": REPLAY_ASSUME,
     }
     PROPS["C18"] = {
+        "generated_layer": True,
         "gens": [{"id": "C18", "quick": 30000, "thorough": 400000, "thorough_seeds": 8}],
         "compare": cmp_c18,
         "nontrivial": nontrivial_c18,
